@@ -470,4 +470,14 @@ def rule_topo(ctx):
                         "children are executed before parents in every traversal order", lambda i: True, 4)
 
 
-RULES = [rule_record, rule_consume, rule_recipes, rule_root, rule_topo]
+def rule_merge(ctx):
+    """Shared with C18-MERGE (seed C01_4): annealing installs the legs, cost and size computed by the move
+    evaluator on the new node (`contract_nodes_pair(legs=…, cost=…, size=…)`); they are the tree's own figures
+    only if the evaluator merges the two leg tables by the tree's survival rule."""
+    from .c18 import rule_merge as src
+
+    return C.reuse_rule(ctx, src, "C18-MERGE", "C01-MERGE",
+                        "figures installed by annealing moves follow the tree's survival rule", lambda i: True, 3)
+
+
+RULES = [rule_merge, rule_record, rule_consume, rule_recipes, rule_root, rule_topo]
